@@ -21,7 +21,9 @@ from pv import env
 
 NCPU = int(os.environ.get("PV_WORKERS", "0")) or min(16, os.cpu_count() or 4)
 EVIDENCE_DIR = os.path.join(env.VERIF, "evidence")
-REPLAY_DIR = os.path.join(env.VERIF, "replays")
+REPLAY_DIR = os.environ.get("PV_REPLAY_DIR") or os.path.join(env.VERIF, "replays")
+if os.environ.get("PV_REPLAY_DIR"):
+    EVIDENCE_DIR = os.path.join(os.environ["PV_REPLAY_DIR"], "evidence")   # runs against scratch copies never overwrite the evidence
 KNOWN_FINDINGS = os.path.join(env.VERIF, "known_findings.json")
 
 
